@@ -258,6 +258,40 @@ fn run_session(bin: &PathBuf, mode: &Mode, roots: &[History], terminals: &[Pos],
         if g.n_bestmove_lines != 1 {
             acc.violation(format!("C08|count|{}", tag), format!("{} bestmove lines for one '{}' on {}", g.n_bestmove_lines, g.args, pos.to_fen()), case);
         }
+        // the engine's own answer ended the game: a further go (no new position) is a go on a
+        // finished game and must be answered with a null move like any other
+        if !terminal {
+            if let Some(m) = parse_mv(&text).filter(|m| legal_moves(&pos).contains(m)) {
+                let after = apply(&pos, m);
+                if !has_legal_move(&after) {
+                    s.cur = Some(after.clone());
+                    let args2 = clock_args(&mut rng, after.stm, 200);
+                    let (mut g2, hang2) = go_bounded(&mut s, &args2);
+                    acc.evaluations += 1;
+                    acc.feature("go_after_own_game_ending_move");
+                    let script: Vec<String> = s.eng.transcript.iter().filter(|e| e.dir == crate::bb::Dir::Sent).map(|e| e.line.clone()).collect();
+                    let case2 = json!({"kind": "session", "property": "C08", "mode": mode.name, "failpoints": mode.failpoints, "pinned": mode.pin, "script": script, "transcript_tail": s.eng.transcript_text(30)});
+                    if let Some(why) = hang2 {
+                        acc.violation(format!("C08|hang|after-own-mate|{}", tag), format!("after the engine's own {} ended the game on {}, a further '{}' is never answered: {}", m, pos.to_fen(), g2.args, why), case2);
+                        return;
+                    }
+                    match &g2.bestmove {
+                        Some((t, _)) if is_null_move(t) => {}
+                        Some((t, _)) => acc.violation(format!("C08|terminal-answer|after-own-mate|{}", tag), format!("after the engine's own {} ended the game on {}, a further '{}' answered 'bestmove {}' instead of a null move", m, pos.to_fen(), g2.args, t), case2.clone()),
+                        None => {
+                            acc.count("unanswered_with_live_search_thread", 1);
+                            return;
+                        }
+                    }
+                    if !s.settle(&mut g2, WATCHDOG) {
+                        if s.eng.exited().is_some() || s.eng.thread_count() <= 1 {
+                            acc.violation(format!("C08|unresponsive|after-own-mate|{}", tag), format!("no readyok after a go on the game the engine's own {} had ended ({})", m, pos.to_fen()), case2);
+                        }
+                        return;
+                    }
+                }
+            }
+        }
     }
     acc.count("sessions_completed", 1);
 }
@@ -278,7 +312,7 @@ pub fn solo_confirm(bin: &PathBuf, c: &SlowCase) -> Vec<f64> {
 
 pub fn run(tier: Tier, seed: u64) -> i32 {
     let mut run = Run::new("C08", tier, seed, "exploration");
-    run.rule = "evaluation = one `go` on the real binary with a planned slice s <= 200 ms (clock settings with movestogo absent or >= 1), alternating terminal roots (checkmates and stalemates: sampled KQK/KRK/KPK/KRRK/KQPKP families with corner-biased kings, terminal positions met by oracle-driven games with full material, composed mates) and non-terminal roots. Checked: a bestmove arrives; on a terminal root it is `0000` or `(none)`, otherwise a legal move; isready is answered afterwards and the next position+go is served. Hang = no answer after s + 1.5 s AND /proc shows the search thread gone (immediate verdict) or the process ended; latency above s + 300 ms is confirmed by three solo re-runs before it counts; a watchdog expiry with a live search thread is inconclusive. Schedules: 8 and 32 engines in parallel, pinned to one CPU, hooked binary with failpoints (search thread start delayed up to 20 ms, sends delayed). Non-trivial = every go; distinct by (mode, root, go line, session)".into();
+    run.rule = "evaluation = one `go` on the real binary with a planned slice s <= 200 ms (clock settings with movestogo absent or >= 1), alternating terminal roots (checkmates and stalemates: sampled KQK/KRK/KPK/KRRK/KQPKP families with corner-biased kings, terminal positions met by oracle-driven games with full material, composed mates) and non-terminal roots. Checked: a bestmove arrives; on a terminal root it is `0000` or `(none)`, otherwise a legal move; isready is answered afterwards and the next position+go is served; when the engine's own answer ends the game (a quarter of the non-terminal roots are one move from mate or stalemate) a further go without a new position must be answered with a null move as well. Hang = no answer after s + 1.5 s AND /proc shows the search thread gone (immediate verdict) or the process ended; latency above s + 300 ms is confirmed by three solo re-runs before it counts; a watchdog expiry with a live search thread is inconclusive. Schedules: 8 and 32 engines in parallel, pinned to one CPU, hooked binary with failpoints (search thread start delayed up to 20 ms, sends delayed). Non-trivial = every go; distinct by (mode, root, go line, session)".into();
     run.assumptions = vec![
         "unbounded 'eventually answers' is restated as the bound slice + 300 ms (solo-confirmed) and plan + 10 s watchdog".into(),
         "accepted null-move spellings: 0000 and (none)".into(),
@@ -298,6 +332,24 @@ pub fn run(tier: Tier, seed: u64) -> i32 {
         }
     };
     let mut roots = session_roots(seed ^ 8, tier.pick(100, 800));
+    // roots one move before the end of the game (the engine's answer may end it, see run_session)
+    {
+        let mut rng = Rng::stream(seed, 0xC08_111);
+        let want = roots.len() / 4;
+        let mut got = 0;
+        let mut tries = 0;
+        while got < want && tries < 100_000 {
+            tries += 1;
+            let mats: &[(&[Kind], &[Kind])] = &[(&[Kind::Queen], &[]), (&[Kind::Rook], &[]), (&[Kind::Rook, Kind::Rook], &[]), (&[Kind::Queen, Kind::Pawn], &[Kind::Pawn]), (&[Kind::Queen], &[Kind::Rook])];
+            let (w, b) = mats[rng.below(mats.len() as u64) as usize];
+            if let Some(p) = super::c11::material_position(&mut rng, w, b, Color::White) {
+                if legal_moves(&p).iter().any(|m| !has_legal_move(&apply(&p, *m))) {
+                    roots.push(History { start: p.clone(), moves: vec![], end: p });
+                    got += 1;
+                }
+            }
+        }
+    }
     {
         // capture-storm roots: every eighth non-terminal root has many mutually attacking queens
         let mut rng = Rng::stream(seed, 0x57_0A);
